@@ -8,7 +8,7 @@ namespace ExprModel.Lex
 /-- for tokens whose value is their text: kind and stopping point are enough -/
 theorem spells_plain {cc : CharClass} {k : TokKind} {raw : List Char} {ok : List Char → Prop}
     (hne : raw ≠ []) (hk : k ≠ .string)
-    (hni : ¬ ∃ mid, raw = "not".toList ++ mid ++ "in".toList ∧ ∀ c ∈ mid, c = ' ')
+    (hni : k = .operator → ¬ ∃ mid, raw = "not".toList ++ mid ++ "in".toList ∧ ∀ c ∈ mid, c = ' ')
     (h : ∀ (s : LState) (L : Loc) (rest : List Char), Fresh s L (raw ++ rest) → ok rest →
       ∃ t s1, root cc LexTables.std s (raw ++ rest) = .tok t s1 rest ∧ t.kind = k) :
     Spells cc k (String.ofList raw) raw ok := by
@@ -20,10 +20,10 @@ theorem spells_plain {cc : CharClass} {k : TokKind} {raw : List Char} {ok : List
   obtain ⟨raw', _, e, _, _, _, htext, _⟩ := hs
   have : raw' = raw := List.append_cancel_right e.symm
   subst this
-  rcases htext with h1 | ⟨h2, _⟩ | ⟨_, _, mid, h3, h4⟩
+  rcases htext with h1 | ⟨h2, _⟩ | ⟨h0, _, mid, h3, h4⟩
   · exact h1
   · rw [hkind] at h2; exact absurd h2 hk
-  · exact absurd ⟨mid, h3, h4⟩ hni
+  · rw [hkind] at h0; exact absurd ⟨mid, h3, h4⟩ (hni h0)
 
 theorem emit_tok (k : TokKind) (s : LState) (rest : List Char) :
     ∃ t s1, emit k s rest = .tok t s1 rest ∧ t.kind = k := ⟨_, _, rfl, rfl⟩
@@ -88,7 +88,7 @@ theorem punctKind_ne_string {c : Char} {k : TokKind} (h : punctKind c = some k) 
 
 theorem spells_punct {cc : CharClass} (hcc : cc.AsciiExact) {c : Char} {k : TokKind} (h : punctKind c = some k) :
     Spells cc k (String.ofList [c]) [c] (fun _ => True) := by
-  refine spells_plain (by simp) (punctKind_ne_string h) (not_notin_short (by simp)) fun s L rest _ _ => ?_
+  refine spells_plain (by simp) (punctKind_ne_string h) (fun _ => not_notin_short (by simp)) fun s L rest _ _ => ?_
   rw [List.singleton_append, root_punct hcc h]
   exact emit_tok _ _ _
 
@@ -107,13 +107,13 @@ theorem root_quest {cc : CharClass} (hcc : cc.AsciiExact) (s : LState) (rest : L
 
 theorem spells_quest {cc : CharClass} (hcc : cc.AsciiExact) :
     Spells cc .operator "?" ['?'] (fun rest => rest.head? ≠ some '.') := by
-  refine spells_plain (raw := ['?']) (by simp) (by decide) (not_notin_short (by simp)) fun s L rest _ hok => ?_
+  refine spells_plain (raw := ['?']) (by simp) (by decide) (fun _ => not_notin_short (by simp)) fun s L rest _ hok => ?_
   rw [List.singleton_append, root_quest hcc, peek_fst, if_neg hok, peek_rest]
   exact emit_tok _ _ _
 
 theorem spells_nilsafe {cc : CharClass} (hcc : cc.AsciiExact) :
     Spells cc .operator "?." ['?', '.'] (fun rest => ∀ c, rest.head? = some c → c ≠ '?' ∧ c ≠ '.') := by
-  refine spells_plain (raw := ['?', '.']) (by simp) (by decide) (not_notin_short (by simp)) fun s L rest _ hok => ?_
+  refine spells_plain (raw := ['?', '.']) (by simp) (by decide) (fun _ => not_notin_short (by simp)) fun s L rest _ hok => ?_
   show ∃ t s1, root cc LexTables.std s ('?' :: '.' :: rest) = _ ∧ _
   rw [root_quest hcc, peek_cons, if_pos rfl]
   simp only [nilsafeState, next]
@@ -152,7 +152,7 @@ theorem root_dbl {cc : CharClass} (hcc : cc.AsciiExact) {c : Char} (h : LexTable
 theorem spells_dbl1 {cc : CharClass} (hcc : cc.AsciiExact) {c : Char} (h : LexTables.std.dblFirst.contains c = true) :
     Spells cc .operator (String.ofList [c]) [c]
       (fun rest => ∀ x, rest.head? = some x → LexTables.std.dblSecond.contains x = false) := by
-  refine spells_plain (by simp) (by decide) (not_notin_short (by simp)) fun s L rest _ hok => ?_
+  refine spells_plain (by simp) (by decide) (fun _ => not_notin_short (by simp)) fun s L rest _ hok => ?_
   rw [List.singleton_append, root_dbl hcc h]
   cases rest with
   | nil => rw [accept_nil]; exact emit_tok _ _ _
@@ -164,7 +164,7 @@ theorem spells_dbl1 {cc : CharClass} (hcc : cc.AsciiExact) {c : Char} (h : LexTa
 theorem spells_dbl2 {cc : CharClass} (hcc : cc.AsciiExact) {c c2 : Char} (h : LexTables.std.dblFirst.contains c = true)
     (h2 : LexTables.std.dblSecond.contains c2 = true) :
     Spells cc .operator (String.ofList [c, c2]) [c, c2] (fun _ => True) := by
-  refine spells_plain (by simp) (by decide) (not_notin_short (by simp)) fun s L rest _ _ => ?_
+  refine spells_plain (by simp) (by decide) (fun _ => not_notin_short (by simp)) fun s L rest _ _ => ?_
   show ∃ t s1, root cc LexTables.std s (c :: c2 :: rest) = _ ∧ _
   rw [root_dbl hcc h, accept_cons, if_pos h2]
   exact emit_tok _ _ _
@@ -179,7 +179,7 @@ theorem root_dot {cc : CharClass} (hcc : cc.AsciiExact) (s : LState) (rest : Lis
 theorem spells_dot {cc : CharClass} (hcc : cc.AsciiExact) :
     Spells cc .operator "." ['.']
       (fun rest => ∀ x, rest.head? = some x → x ≠ '.' ∧ LexTables.std.dotDigits.contains x = false) := by
-  refine spells_plain (raw := ['.']) (by simp) (by decide) (not_notin_short (by simp)) fun s L rest _ hok => ?_
+  refine spells_plain (raw := ['.']) (by simp) (by decide) (fun _ => not_notin_short (by simp)) fun s L rest _ hok => ?_
   rw [List.singleton_append, root_dot hcc]
   cases rest with
   | nil =>
@@ -193,7 +193,7 @@ theorem spells_dot {cc : CharClass} (hcc : cc.AsciiExact) :
 
 theorem spells_dotdot {cc : CharClass} (hcc : cc.AsciiExact) :
     Spells cc .operator ".." ['.', '.'] (fun _ => True) := by
-  refine spells_plain (raw := ['.', '.']) (by simp) (by decide) (not_notin_short (by simp)) fun s L rest _ _ => ?_
+  refine spells_plain (raw := ['.', '.']) (by simp) (by decide) (fun _ => not_notin_short (by simp)) fun s L rest _ _ => ?_
   show ∃ t s1, root cc LexTables.std s ('.' :: '.' :: rest) = _ ∧ _
   rw [root_dot hcc]
   have h1 : LexTables.std.dotDigits.contains '.' = false := by decide
